@@ -10,7 +10,7 @@ COMMON_TRUST = [
 PROPS = {}
 
 PROPS["C19"] = dict(
-    units=["crc"],
+    units=["crc", "fonts"],
     kani_quick=["c19_crc16_table_entry", "c19_crc32_table0_entry", "c19_crc32_tablek_entry",
                 "c19_update_crc16_step", "c19_update_crc32_step", "c19_bounded_crc16_len9"],
     kani_thorough=["c19_bounded_oneshot_vs_incremental_len3", "c19_bounded_crc32_len20"],
@@ -29,7 +29,8 @@ PROPS["C19"] = dict(
     ],
     unverified_remainder=["get_crc16_buggy / get_crc16_buggy_zlde / buggy_update (deliberately non-standard variants, "
                           "not part of the property)"],
-    explanation="get_crc16/update_crc16/update_crc32/update_slow/get_crc32 are proved equal to the bit-at-a-time "
+    explanation="Caller clause (unit fonts): BitFont::calculate_checksum is the incremental CRC-32 register over the glyph rows of the codes 0..length in order. "
+                "get_crc16/update_crc16/update_crc32/update_slow/get_crc32 are proved equal to the bit-at-a-time "
                 "definitions for strings of every length (Verus, loop invariants over the consumed prefix); the "
                 "table contents are proved entry by entry by Kani against the defining recurrences.",
 )
